@@ -51,11 +51,16 @@ _SAFE_BUILTINS = {
     "reversed": reversed,
     "frozenset": frozenset,
     "dict": dict,
+    "round": round,
+    "abs": abs,
+    "bin": bin,
+    "iter": iter,
+    "next": None,  # handled specially
     "isinstance": None,  # handled specially
 }
 
 _SAFE_METHODS = {
-    str: {"split", "startswith", "endswith", "lower", "upper", "replace", "strip", "join", "format", "rsplit", "partition"},
+    str: {"split", "startswith", "endswith", "lower", "upper", "replace", "strip", "join", "format", "rsplit", "partition", "zfill", "isdigit", "lstrip", "rstrip", "find", "count"},
     # mutators are allowed: every value here is a model value owned by the evaluator
     list: {"index", "count", "copy", "append", "insert", "pop", "extend", "remove", "reverse", "sort"},
     tuple: {"index", "count"},
@@ -106,6 +111,16 @@ class MiniEval:
             if tname in table:
                 return isinstance(obj, table[tname])
             raise Unsupported(f"isinstance against {tname}")
+        if isinstance(n.func, ast.Name) and n.func.id == "next" and n.func.id not in self.env and 1 <= len(n.args) <= 2:
+            it = self.ev(n.args[0])
+            try:
+                return next(it)
+            except StopIteration:
+                if len(n.args) == 2:
+                    return self.ev(n.args[1])
+                raise ModelRaise("StopIteration", "next() on an exhausted iterator")
+            except TypeError as e:
+                raise Unsupported(f"next() on a non-iterator: {e}")
         f = self.ev(n.func)
         args = []
         for a in n.args:
@@ -132,6 +147,8 @@ class MiniEval:
             raise ModelRaise("KeyError", str(e))
         except IndexError as e:
             raise ModelRaise("IndexError", str(e))
+        except (ValueError, ZeroDivisionError, StopIteration) as e:
+            raise ModelRaise(type(e).__name__, str(e))
         except (TypeError, AttributeError) as e:
             raise Unsupported(f"call {norm(n)} failed in the model: {e}")
 
@@ -235,9 +252,23 @@ class MiniEval:
                 return a % b
             if isinstance(n.op, ast.Pow):
                 return a**b
+        except ZeroDivisionError as e:
+            raise ModelRaise("ZeroDivisionError", str(e))
         except TypeError as e:
             raise Unsupported(f"binop {norm(n)}: {e}")
         raise Unsupported(norm(n))
+
+    def ev_Lambda(self, n):
+        names = [x.arg for x in n.args.posonlyargs + n.args.args]
+        outer = self
+
+        def lam(*args):
+            sub = MiniEval(dict(outer.env))
+            for nm, v in zip(names, args):
+                sub.env[nm] = v
+            return sub.ev(n.body)
+
+        return lam
 
     def ev_IfExp(self, n):
         return self.ev(n.body) if self.ev(n.test) else self.ev(n.orelse)
@@ -302,6 +333,12 @@ class MiniEval:
                 raise Unsupported("unpack arity")
             for t, v in zip(target.elts, vals):
                 self._bind(t, v)
+        elif isinstance(target, ast.Attribute):
+            obj = self.ev(target.value)
+            if isinstance(obj, Model) and not target.attr.startswith("_"):
+                setattr(obj, target.attr, value)
+            else:
+                raise Unsupported(f"attribute store on {type(obj).__name__}")
         elif isinstance(target, ast.Subscript):
             obj = self.ev(target.value)
             key = self.ev(target.slice)
@@ -494,8 +531,8 @@ class BlockInterp:
             n = 0
             while self.me.ev(st.test):
                 n += 1
-                if n > 200:
-                    raise Unsupported("while loop does not terminate in the model")
+                if n > 1000:
+                    raise ModelRaise("NonTermination", "while loop exceeds 1000 iterations on a small model")
                 r = self.run(st.body)
                 if r == "break":
                     break
